@@ -107,6 +107,11 @@ class PyPackageSearcher(AbstractSearcher):
                 pyData = pyData[4:]
                 if sys.version_info[:2] >= (3, 7):
                     # PEP 552: a flags word precedes the source mtime
+                    if struct.unpack('<L', pyData[:4])[0] & 1:
+                        # hash-based: a source hash takes the place of the mtime
+                        debug.logger & debug.flagSearcher and debug.logger('no source mtime in %s' % f)
+                        continue
+
                     pyData = pyData[4:]
                 pyTime = struct.unpack('<L', pyData[:4])[0]
                 debug.logger & debug.flagSearcher and debug.logger(
